@@ -1,3 +1,3 @@
 SPECIFICATION Spec
-INVARIANTS Contained CleanIdem InvalidNeverActs NestedViews ArchiveContained EmitCase
+INVARIANTS Contained CleanIdem InvalidNeverActs NestedViews ArchiveContained PrefixContained HiddenByCleanPath EmitCase
 CHECK_DEADLOCK FALSE
